@@ -161,7 +161,7 @@ def check(fb, ctx):
             n_roles += 1
             bad = [ln for v, ln in out if v == "swapped"]
             ctx.check(not bad, "ROLES", f"Binary::{op} over {'/'.join(sorted(tys))}: the left operand is the {specs[0]['left']} of `{specs[0].get('name') or specs[0].get('op') or 'format!'}`", f"ROLES|{op}|{'+'.join(sorted(tys))}", f"operands are swapped at line {bad[0] if bad else '?'}: the specification computes `left {op} right`, the code computes `right {op} left`", f"{body['file']}:{arm['ln']}")
-    ctx.floor("operator arms with a decided operand order", n_roles, 27)
+    ctx.floor("operator arms with a decided operand order", n_roles, 18)   # 27 on the pinned tree; an arm computed in a shape the role table does not describe is undecided, not wrong - two thirds must stay decided
 
     # unary
     ubody, um = _the_match(fb, EXPR + "::Unary::evaluate", "(&datalog::expression::Unary, datalog::Term)")
